@@ -5,7 +5,7 @@
 // caller-supplied event channel; jsonTextValid is the assumed contract of encoding/json (spec/c04.smt2).
 package validator
 
-//@ prelude c04 c18 c03
+//@ prelude c04 c18 c03 c09
 
 //@ func dispatchEvent(event e.Event, eventChan *chan e.Event)
 //@   requires [C11:protocol] eventChan != nil ==> (chanClosed == 0 && ite(evIsStart(event.EventType), !evOpen && evStage(event.EventType) == evNext, evOpen && evCur == evStage(event.EventType)))
@@ -29,6 +29,7 @@ package validator
 //@ func ProcessProfile(profileText string, debug bool, eventChan *chan e.Event) (*rego.PreparedEvalQuery, error)
 //@   requires [C11:fresh] eventChan != nil ==> (chanClosed == 0 && !evOpen && evNext == 0)
 //@   ensures [C11:stages] eventChan != nil ==> (chanClosed == old(chanClosed) && (result1 == nil ==> !evOpen && evNext == 3))
+//@   ensures-assumed [C09:A-OPA5] result1 == compileErr(profileText) && (result1 == nil ==> result0 != nil && deref(result0) == compiledQuery(profileText))
 
 //@ func ProcessInput(jsonldText string, debug bool, receiver *chan e.Event) (any, error)
 //@   requires [C11:compiled] receiver != nil ==> (chanClosed == 0 && !evOpen && evNext == 3)
@@ -49,11 +50,15 @@ package validator
 //@   requires [C11:compiled] eventChan != nil ==> (chanClosed == 0 && !evOpen && evNext == 3)
 //@   ensures [C11:closed-once] eventChan != nil ==> chanClosed == old(chanClosed) + 1
 //@   ensures [C04:no-verdict] !jsonTextValid(jsonldText) ==> (result1 != nil && result0 == "")
+//@   ensures-assumed [C09:function-of-inputs] compiledRegoPtr != nil ==> (result0 == libCompiledReport(deref(compiledRegoPtr), jsonldText, validationConfig, reportConfig) && result1 == libCompiledReportErr(deref(compiledRegoPtr), jsonldText, validationConfig, reportConfig))
 
 //@ func ValidateWithConfiguration(profileText string, jsonldText string, debug bool, eventChan *chan e.Event, validationConfig c.ValidationConfiguration, reportConfig c.ReportConfiguration) (string, error)
 //@   requires [C11:fresh] eventChan != nil ==> (chanClosed == 0 && !evOpen && evNext == 0)
 //@   ensures [C11:closed-once] eventChan != nil ==> chanClosed == old(chanClosed) + 1
 //@   ensures [C04:no-verdict] !jsonTextValid(jsonldText) ==> (result1 != nil && result0 == "")
+
+//@   ensures [C09:equivalent-to-precompiled] compileErr(profileText) == nil ==> (result0 == libCompiledReport(compiledQuery(profileText), jsonldText, validationConfig, reportConfig) && result1 == libCompiledReportErr(compiledQuery(profileText), jsonldText, validationConfig, reportConfig))
+//@   ensures [C09:compile-error-no-report] compileErr(profileText) != nil ==> (result1 != nil && result0 == "")
 
 //@ func Validate(profileText string, jsonldText string, debug bool, eventChan *chan e.Event) (string, error)
 //@   requires [C11:fresh] eventChan != nil ==> (chanClosed == 0 && !evOpen && evNext == 0)
